@@ -216,6 +216,9 @@ func replayOne(rf *vstat.ReplayFile) string {
 	if rf.Property != "C17" {
 		return "unknown replay property " + rf.Property
 	}
+	if rf.Part == "reload" {
+		return replayRich(rf.Scenario)
+	}
 	switch rf.Kind {
 	case "rapid", "seq":
 		var sc Scenario
